@@ -32,7 +32,10 @@
     `i_result[i + 1]` rely on `for i in range(len(map_field))` (and on the arrays having that length: the owners'
     hypotheses); `data_field[map_field[i]]`, `data_indices[map_field[i]]`, `data_indices[map_field[i] + 1]` = `getI` are
     reached only on `map_filter[i]` / `map_field[i] != invalid` — the filter is the ONLY protection of the computed
-    subscript, the model has the same branch.
+    subscript, the model has the same branch. `i_result[i + 1]` = the capacity check `capI ≤ i + 1` of `smivStep`: relies on
+    `for i in range(len(map_field))` and on the kernel's own allocation `len(map_field) + 1`; `v_result[dst:dse] = …` = the
+    check `capV < offset + delta`: NO test bounds `dse` — it is in range because the first pass adds up exactly the deltas
+    the second pass writes (`safeMapIndexedValues_spec`); `i_result[0]` is on the empty path (at least one slot).
 -/
 namespace Exetera.KernelPaths
 
